@@ -68,6 +68,10 @@ def pool():
     add("range-in", {"config": {"valid_addr_range": {"min": "0x401000", "max": "0x401fff"}}, "pattern": [{"call": ["valid_addr"]}]}, mode=L)
     add("range-out", {"config": {"valid_addr_range": {"min": "0x500000", "max": "0x5fffff"}}, "pattern": [{"call": ["valid_addr"]}]}, mode=L)
     add("range-none-literal", {"pattern": [{"call": ["401005"]}]}, mode=L)
+    # ranges that contain nothing (inverted bounds, a single far address): the literal target stays what it is, whatever ran before
+    add("range-inverted-literal", {"config": {"valid_addr_range": {"min": "0x402000", "max": "0x401000"}}, "pattern": [{"call": ["401005"]}]}, mode=L)
+    add("range-inverted-tag", {"config": {"valid_addr_range": {"min": "0x402000", "max": "0x401000"}}, "pattern": [{"call": ["valid_addr"]}]}, mode=L)
+    add("range-far-point-literal", {"config": {"valid_addr_range": {"min": "0xfffffff0", "max": "0xfffffff0"}}, "pattern": [{"call": ["401005"]}]}, mode=L)
     add("range-none-tag", {"pattern": [{"call": ["valid_addr"]}]})
     add("range-in-literal", {"config": {"valid_addr_range": {"min": "401005", "max": "401005"}}, "pattern": [{"call": ["401005"]}]})
     # sections / style on a binary
